@@ -1,5 +1,713 @@
+/-
+  C15 — Malformed input is rejected with an error, never a panic.
+  * the story loader (`Load.loadStory` and every helper returning an `Out`)
+    and the save loader (`Save.loadState`, `readObj` … `loadStateObj`) end in
+    `ok` or `err` for EVERY JSON value and for text that is not JSON;
+  * a load replaces nothing but the story state, so a reset after a (failed)
+    load is the reset before it, i.e. the freshly constructed story (C17);
+  * the JSON parser accepts only completely read documents.
+-/
+import Proofs.C17
 import Ink.Save
+
 namespace Ink
 namespace C15
+
+open Json (get?)
+
+/-- An outcome that is not a panic, in computable form. -/
+theorem np_iff {α : Type} (x : Out α) : x.isPanic = false ↔ ∀ site, x ≠ .panic site := by
+  cases x <;> simp [Out.isPanic]
+
+theorem np_elim {α : Type} {x : Out α} {s : String} (h : x.isPanic = false) (heq : x = .panic s) : False := by
+  subst heq; cases h
+
+/-! ### 1. The story loader -/
+
+/-- The leaf cases of `tokenToObj` (everything but the array case). -/
+theorem tokenToObj_succ_np (fuel : Nat) (tok : Json) (name : Option String)
+    (h : ∀ xs name, (Load.arrayToContainer fuel xs name).isPanic = false) :
+    (Load.tokenToObj (fuel+1) tok name).isPanic = false := by
+  unfold Load.tokenToObj
+  simp only []
+  repeat' (first | rfl | exact h _ _ | split)
+  all_goals
+    rename_i heq
+    revert heq
+    repeat' (first | (intro h'; cases h'; done) | split)
+
+theorem arrayToContainer_succ_np (fuel : Nat) (xs : List Json) (name : Option String)
+    (hT : ∀ kvs name flags named, (Load.termObj fuel kvs name flags named).isPanic = false)
+    (hL : ∀ xs, (Load.objList fuel xs).isPanic = false) :
+    (Load.arrayToContainer (fuel+1) xs name).isPanic = false := by
+  unfold Load.arrayToContainer
+  repeat' (first | rfl | split)
+  · next heq => exact (np_elim (hL _) heq).elim
+  · next heq => exact (np_elim (hT _ _ _ _) heq).elim
+
+theorem termObj_succ_np (fuel : Nat) (kvs : List (String × Json)) (name : Option String) (flags : Int)
+    (named : List (String × Obj))
+    (hT : ∀ kvs name flags named, (Load.termObj fuel kvs name flags named).isPanic = false)
+    (hO : ∀ tok name, (Load.tokenToObj fuel tok name).isPanic = false) :
+    (Load.termObj (fuel+1) kvs name flags named).isPanic = false := by
+  unfold Load.termObj
+  repeat' (first | rfl | exact hT _ _ _ _ | split)
+  next heq => exact (np_elim (hO _ _) heq).elim
+
+theorem objList_succ_np (fuel : Nat) (xs : List Json)
+    (hL : ∀ xs, (Load.objList fuel xs).isPanic = false)
+    (hO : ∀ tok name, (Load.tokenToObj fuel tok name).isPanic = false) :
+    (Load.objList (fuel+1) xs).isPanic = false := by
+  unfold Load.objList
+  repeat' (first | rfl | split)
+  · next heq => exact (np_elim (hL _) heq).elim
+  · next heq => exact (np_elim (hO _ _) heq).elim
+
+/-- The four mutually recursive loader functions never panic (joint induction on fuel). -/
+theorem load_mutual_np (fuel : Nat) :
+    (∀ tok name, (Load.tokenToObj fuel tok name).isPanic = false)
+    ∧ (∀ xs name, (Load.arrayToContainer fuel xs name).isPanic = false)
+    ∧ (∀ kvs name flags named, (Load.termObj fuel kvs name flags named).isPanic = false)
+    ∧ (∀ xs, (Load.objList fuel xs).isPanic = false) := by
+  induction fuel with
+  | zero =>
+    refine ⟨?_, ?_, ?_, ?_⟩
+    · intro tok name; unfold Load.tokenToObj; rfl
+    · intro xs name; unfold Load.arrayToContainer; rfl
+    · intro kvs name flags named; unfold Load.termObj; rfl
+    · intro xs; unfold Load.objList; rfl
+  | succ fuel ih =>
+    obtain ⟨hO, hA, hT, hL⟩ := ih
+    exact ⟨fun tok name => tokenToObj_succ_np fuel tok name hA,
+           fun xs name => arrayToContainer_succ_np fuel xs name hT hL,
+           fun kvs name flags named => termObj_succ_np fuel kvs name flags named hT hO,
+           fun xs => objList_succ_np fuel xs hL hO⟩
+
+
+theorem tokenToObj_np (fuel : Nat) (tok : Json) (name : Option String) :
+    ∀ site, Load.tokenToObj fuel tok name ≠ .panic site :=
+  (np_iff _).1 ((load_mutual_np fuel).1 tok name)
+
+theorem arrayToContainer_np (fuel : Nat) (xs : List Json) (name : Option String) :
+    ∀ site, Load.arrayToContainer fuel xs name ≠ .panic site :=
+  (np_iff _).1 ((load_mutual_np fuel).2.1 xs name)
+
+theorem termObj_np (fuel : Nat) (kvs : List (String × Json)) (name : Option String) (flags : Int)
+    (named : List (String × Obj)) :
+    ∀ site, Load.termObj fuel kvs name flags named ≠ .panic site :=
+  (np_iff _).1 ((load_mutual_np fuel).2.2.1 kvs name flags named)
+
+theorem objList_np (fuel : Nat) (xs : List Json) :
+    ∀ site, Load.objList fuel xs ≠ .panic site :=
+  (np_iff _).1 ((load_mutual_np fuel).2.2.2 xs)
+
+theorem listDefs_go_np (l : List (String × Json)) (acc : List (String × List (String × Int))) :
+    (Load.listDefs.go l acc).isPanic = false := by
+  induction l generalizing acc with
+  | nil => unfold Load.listDefs.go; rfl
+  | cons x rest ih =>
+    obtain ⟨name, lj⟩ := x
+    unfold Load.listDefs.go
+    repeat' (first | rfl | exact ih _ | split)
+
+theorem listDefs_isPanic (d : Json) : (Load.listDefs d).isPanic = false := by
+  unfold Load.listDefs
+  split
+  · rfl
+  · exact listDefs_go_np _ _
+
+theorem listDefs_np (d : Json) : ∀ site, Load.listDefs d ≠ .panic site :=
+  (np_iff _).1 (listDefs_isPanic d)
+
+theorem loadStory_isPanic (fuel : Nat) (doc : Option Json) : (Load.loadStory fuel doc).isPanic = false := by
+  unfold Load.loadStory
+  repeat' (first | rfl | split)
+  · next heq => exact (np_elim ((load_mutual_np fuel).1 _ _) heq).elim
+  · next heq => exact (np_elim (listDefs_isPanic _) heq).elim
+
+/-- **loadStory_no_panic.** Whatever the document (any JSON value, or text that
+    is not JSON at all), the story loader ends in `ok` or in an error. -/
+theorem loadStory_no_panic (fuel : Nat) (doc : Option Json) :
+    ∀ site, Load.loadStory fuel doc ≠ .panic site :=
+  (np_iff _).1 (loadStory_isPanic fuel doc)
+
+
+/-! #### Error kinds of the story loader -/
+
+/-- The error kinds the story loader can report. -/
+def KindOK {α : Type} (x : Out α) : Prop :=
+  ∀ k m, x = .err k m → k = "BadJson" ∨ k = "Fuel" ∨ k = "Unsupported"
+
+theorem kind_ok {α : Type} (a : α) : KindOK (Out.ok a) := by intro k m h; cases h
+theorem kind_panic {α : Type} (s : String) : KindOK (Out.panic s : Out α) := by intro k m h; cases h
+theorem kind_bad {α : Type} (t : String) : KindOK (Out.badJson t : Out α) := by
+  intro k m h; cases h; exact Or.inl rfl
+theorem kind_fuel {α : Type} (t : String) : KindOK (Out.err "Fuel" t : Out α) := by
+  intro k m h; cases h; exact Or.inr (Or.inl rfl)
+theorem kind_unsup {α : Type} (t : String) : KindOK (Out.err "Unsupported" t : Out α) := by
+  intro k m h; cases h; exact Or.inr (Or.inr rfl)
+theorem kind_of_eq {α β : Type} {x : Out α} {k m : String} (h : KindOK x) (heq : x = .err k m) :
+    KindOK (Out.err k m : Out β) := by
+  intro k' m' h'; cases h'; exact h k m heq
+
+macro "kind_leaf" : tactic =>
+  `(tactic| first | exact kind_ok _ | exact kind_bad _ | exact kind_fuel _ | exact kind_unsup _
+                  | exact kind_panic _)
+
+theorem tokenToObj_succ_kind (fuel : Nat) (tok : Json) (name : Option String)
+    (h : ∀ xs name, KindOK (Load.arrayToContainer fuel xs name)) :
+    KindOK (Load.tokenToObj (fuel+1) tok name) := by
+  unfold Load.tokenToObj
+  simp only []
+  repeat' (first | kind_leaf | exact h _ _ | split)
+  all_goals
+    rename_i heq
+    refine kind_of_eq ?_ heq
+    repeat' (first | kind_leaf | split)
+
+theorem load_mutual_kind (fuel : Nat) :
+    (∀ tok name, KindOK (Load.tokenToObj fuel tok name))
+    ∧ (∀ xs name, KindOK (Load.arrayToContainer fuel xs name))
+    ∧ (∀ kvs name flags named, KindOK (Load.termObj fuel kvs name flags named))
+    ∧ (∀ xs, KindOK (Load.objList fuel xs)) := by
+  induction fuel with
+  | zero =>
+    refine ⟨?_, ?_, ?_, ?_⟩
+    · intro tok name; unfold Load.tokenToObj; kind_leaf
+    · intro xs name; unfold Load.arrayToContainer; kind_leaf
+    · intro kvs name flags named; unfold Load.termObj; kind_leaf
+    · intro xs; unfold Load.objList; kind_leaf
+  | succ fuel ih =>
+    obtain ⟨hO, hA, hT, hL⟩ := ih
+    refine ⟨fun tok name => tokenToObj_succ_kind fuel tok name hA, ?_, ?_, ?_⟩
+    · intro xs name
+      unfold Load.arrayToContainer
+      repeat' (first | kind_leaf | split)
+      · next heq => exact kind_of_eq (hL _) heq
+      · next heq => exact kind_of_eq (hT _ _ _ _) heq
+    · intro kvs name flags named
+      unfold Load.termObj
+      repeat' (first | kind_leaf | exact hT _ _ _ _ | split)
+      next heq => exact kind_of_eq (hO _ _) heq
+    · intro xs
+      unfold Load.objList
+      repeat' (first | kind_leaf | split)
+      · next heq => exact kind_of_eq (hL _) heq
+      · next heq => exact kind_of_eq (hO _ _) heq
+
+theorem listDefs_go_kind (l : List (String × Json)) (acc : List (String × List (String × Int))) :
+    KindOK (Load.listDefs.go l acc) := by
+  induction l generalizing acc with
+  | nil => unfold Load.listDefs.go; kind_leaf
+  | cons x rest ih =>
+    obtain ⟨name, lj⟩ := x
+    unfold Load.listDefs.go
+    repeat' (first | kind_leaf | exact ih _ | split)
+
+theorem listDefs_kind (d : Json) : KindOK (Load.listDefs d) := by
+  unfold Load.listDefs
+  split
+  · kind_leaf
+  · exact listDefs_go_kind _ _
+
+theorem loadStory_kind (fuel : Nat) (doc : Option Json) : KindOK (Load.loadStory fuel doc) := by
+  unfold Load.loadStory
+  repeat' (first | kind_leaf | split)
+  · next heq => exact kind_of_eq ((load_mutual_kind fuel).1 _ _) heq
+  · next heq => exact kind_of_eq (listDefs_kind _) heq
+
+/-- **loadStory_err_kind** (strongest correct form).  The requested statement
+    `k = "BadJson"` is false of the model (two checked counterexamples below): the
+    loader model also reports `Fuel` (model recursion budget exhausted; no Rust
+    counterpart) and `Unsupported` (a choice object in content, which the model
+    does not cover). -/
+theorem loadStory_err_kind (fuel : Nat) (doc : Option Json) (k m : String)
+    (h : Load.loadStory fuel doc = .err k m) :
+    k = "BadJson" ∨ k = "Fuel" ∨ k = "Unsupported" :=
+  loadStory_kind fuel doc k m h
+
+
+/-- `loadStory_err_kind` with `k = "BadJson"` alone is false: model fuel. -/
+example : Load.loadStory 0 (some (.obj [("inkVersion", .num 21), ("root", .arr [.null]), ("listDefs", .obj [])]))
+    = .err "Fuel" "loader fuel" := rfl
+
+/-- … and a choice object in content (with any amount of fuel). -/
+example : Load.loadStory 100 (some (.obj [("inkVersion", .num 21),
+      ("root", .obj [("originalChoicePath", .str "x")]), ("listDefs", .obj [])]))
+    = .err "Unsupported" "choice object in content" := rfl
+
+/-! ### 2. The save loader -/
+
+open Save
+
+theorem mapOut_np {α β : Type} (f : α → Out β) (l : List α) (h : ∀ x, (f x).isPanic = false) :
+    (mapOut f l).isPanic = false := by
+  induction l with
+  | nil => rfl
+  | cons x xs ih =>
+    unfold mapOut
+    repeat' (first | rfl | split)
+    · next heq => exact (np_elim ih heq).elim
+    · next heq => exact (np_elim (h _) heq).elim
+
+theorem readObj_np (tok : Json) : (readObj tok).isPanic = false :=
+  (load_mutual_np 64).1 tok none
+
+theorem readObjs_np (toks : List Json) : (readObjs toks).isPanic = false :=
+  mapOut_np _ _ readObj_np
+
+theorem readChoice_np (tok : Json) : (readChoice tok).isPanic = false := by
+  unfold readChoice
+  repeat' (first | rfl | split)
+  next heq => exact (np_elim (readObj_np _) heq).elim
+
+theorem pushPopOfCode_np (n : Int) : (pushPopOfCode n).isPanic = false := by
+  unfold pushPopOfCode
+  repeat' (first | rfl | split)
+
+theorem pointerAtPath_np (root : Obj) (p : Path) : (pointerAtPath root p).isPanic = false := by
+  unfold pointerAtPath
+  repeat' (first | rfl | split)
+
+theorem tempEntry_np (kv : String × Json) :
+    (match readObj kv.snd with
+      | Out.ok (Obj.val v) => Out.ok (kv.fst, v)
+      | Out.ok _ => (bad "a variable (not a value)" : Out (String × Val))
+      | Out.err k m => Out.err k m
+      | Out.panic p => Out.panic p).isPanic = false := by
+  split
+  · rfl
+  · rfl
+  · rfl
+  · next heq => exact (np_elim (readObj_np _) heq).elim
+
+theorem readThread_np (root : Obj) (tok : Json) : (readThread root tok).isPanic = false := by
+  unfold readThread
+  split
+  · rfl
+  · simp only []
+    generalize hr : mapOut _ _ = r
+    have hnp : r.isPanic = false := by
+      rw [← hr]
+      apply mapOut_np
+      intro e
+      split
+      · rfl
+      · split
+        · repeat' (first | rfl | split)
+          · next heq =>
+              revert heq
+              repeat' (first | (intro h'; cases h'; done) | split)
+          · next heq _ _ =>
+              split at heq
+              · exact (np_elim (mapOut_np _ _ tempEntry_np) heq).elim
+              · cases heq
+        · rfl
+        · next heq => exact (np_elim (pushPopOfCode_np _) heq).elim
+    clear hr
+    repeat' (first | rfl | exact hnp | split)
+    next heq =>
+      split at heq
+      · exact (np_elim (pointerAtPath_np _ _) heq).elim
+      · cases heq
+
+theorem readCallStack_np (root : Obj) (tok : Json) : (readCallStack root tok).isPanic = false := by
+  unfold readCallStack
+  repeat' (first | rfl | split)
+  all_goals (next heq => exact (np_elim (mapOut_np _ _ (readThread_np root)) heq).elim)
+
+theorem readIntDict_np (tok : Json) (what : String) : (readIntDict tok what).isPanic = false := by
+  unfold readIntDict
+  repeat' (first | rfl | split)
+
+theorem readFlow_np (root : Obj) (name : String) (tok : Json) : (readFlow root name tok).isPanic = false := by
+  unfold readFlow
+  repeat' (first | rfl | split)
+  · simp only []
+    generalize hr : mapOut _ _ = r
+    have hnp : r.isPanic = false := by
+      rw [← hr]
+      apply mapOut_np
+      intro c
+      repeat' (first | rfl | split)
+      next heq => exact (np_elim (readThread_np _ _) heq).elim
+    clear hr
+    repeat' (first | rfl | exact hnp | split)
+  · next heq => exact (np_elim (readCallStack_np _ _) heq).elim
+  · next heq => exact (np_elim (mapOut_np _ _ readChoice_np) heq).elim
+  · next heq => exact (np_elim (readObjs_np _) heq).elim
+
+theorem andThen_np (r : Out Unit × StoryState) (f : StoryState → Out Unit × StoryState)
+    (hr : r.1.isPanic = false) (hf : ∀ s, (f s).1.isPanic = false) : (andThen r f).1.isPanic = false := by
+  unfold andThen
+  split
+  · exact hf _
+  · exact hr
+
+theorem loadStateObj_go_np (root : Obj) (single : Bool) (l : List (String × Json)) (st : StoryState) :
+    (loadStateObj.go root single l st).1.isPanic = false := by
+  induction l generalizing st with
+  | nil => unfold loadStateObj.go; rfl
+  | cons x rest ih =>
+    obtain ⟨name, ftok⟩ := x
+    unfold loadStateObj.go
+    repeat' (first | rfl | exact ih _ | split)
+    next heq => exact (np_elim (readFlow_np _ _ _) heq).elim
+
+theorem loadStateObj_np (root : Obj) (s : StoryState) (j : Json) : (loadStateObj root s j).1.isPanic = false := by
+  unfold loadStateObj
+  split
+  · rfl
+  · simp only []
+    repeat' (first | rfl | (apply andThen_np) | intro _ | exact loadStateObj_go_np _ _ _ _ | split)
+    all_goals
+      rename_i heq
+      first
+      | exact (np_elim (readObjs_np _) heq).elim
+      | exact (np_elim (readIntDict_np _ _) heq).elim
+      | exact (np_elim (pointerAtPath_np _ _) heq).elim
+      | (refine (np_elim (mapOut_np _ _ ?_) heq).elim
+         intro kv
+         repeat' (first | rfl | split)
+         next h => exact (np_elim (readObj_np _) h).elim)
+
+theorem loadState_isPanic (st : Story) (doc : Option Json) : (loadState st doc).1.isPanic = false := by
+  unfold loadState Story.ifAsyncWeCant
+  split
+  · rfl
+  · next heq => split at heq <;> cases heq
+  · split
+    · rfl
+    · exact loadStateObj_np _ _ _
+
+/-- **loadState_no_panic.** Whatever the save document (any JSON value, or text
+    that is not JSON), loading it into any story ends in `ok` or in an error. -/
+theorem loadState_no_panic (st : Story) (doc : Option Json) :
+    ∀ site, (loadState st doc).1 ≠ .panic site :=
+  (np_iff _).1 (loadState_isPanic st doc)
+
+/-- The helpers of the save loader in `≠ .panic` form. -/
+theorem save_helpers_no_panic (root : Obj) (site : String) :
+    (∀ tok, readObj tok ≠ .panic site) ∧ (∀ toks, readObjs toks ≠ .panic site)
+    ∧ (∀ tok, readChoice tok ≠ .panic site) ∧ (∀ n, pushPopOfCode n ≠ .panic site)
+    ∧ (∀ tok, readThread root tok ≠ .panic site) ∧ (∀ tok, readCallStack root tok ≠ .panic site)
+    ∧ (∀ name tok, readFlow root name tok ≠ .panic site) ∧ (∀ tok what, readIntDict tok what ≠ .panic site)
+    ∧ (∀ s j, (loadStateObj root s j).1 ≠ .panic site) :=
+  ⟨fun t => (np_iff _).1 (readObj_np t) site, fun t => (np_iff _).1 (readObjs_np t) site,
+   fun t => (np_iff _).1 (readChoice_np t) site, fun n => (np_iff _).1 (pushPopOfCode_np n) site,
+   fun t => (np_iff _).1 (readThread_np root t) site, fun t => (np_iff _).1 (readCallStack_np root t) site,
+   fun n t => (np_iff _).1 (readFlow_np root n t) site, fun t w => (np_iff _).1 (readIntDict_np t w) site,
+   fun s j => (np_iff _).1 (loadStateObj_np root s j) site⟩
+
+/-! ### 3. A load touches nothing but the story state -/
+
+/-- **loadState_touches_only_state.** -/
+theorem loadState_touches_only_state (st : Story) (doc : Option Json) :
+    (loadState st doc).2 = { st with state := (loadState st doc).2.state } := by
+  unfold loadState
+  repeat' (first | rfl | split)
+
+/-- Load then reset = reset, for every story (no hypothesis needed: when a
+    `continue_async` is in progress both the load and the reset are refused and
+    leave the story alone). -/
+theorem load_then_reset (st : Story) (doc : Option Json) (seed : Int) :
+    ((loadState st doc).2).resetState seed = st.resetState seed := by
+  cases h : st.asyncActive with
+  | true =>
+    have hsame : (loadState st doc).2 = st := by
+      simp [loadState, Story.ifAsyncWeCant, h, Out.invalid]
+    rw [hsame]
+  | false =>
+    rw [loadState_touches_only_state]
+    simp only [Story.resetState, Story.ifAsyncWeCant, h, Bool.false_eq_true, if_false]
+
+/-- **failed_load_then_reset_is_fresh.** Whatever a (failed or successful) load
+    did, resetting afterwards gives what resetting before would have given. -/
+theorem failed_load_then_reset_is_fresh (st : Story) (doc : Option Json) (seed : Int)
+    (_hq : C17.Quiescent st) :
+    ((loadState st doc).2).resetState seed = st.resetState seed :=
+  load_then_reset st doc seed
+
+/-- … which is the freshly constructed story. -/
+theorem failed_load_then_reset_eq_blank (st : Story) (doc : Option Json) (seed : Int)
+    (hq : C17.Quiescent st) :
+    ((loadState st doc).2).resetState seed = (C17.blankWith st seed).resetGlobals := by
+  rw [failed_load_then_reset_is_fresh st doc seed hq, C17.reset_eq_fresh st seed hq]
+
+/-! ### 4. The JSON parser -/
+
+section Parser
+open Json
+
+/-- `r` is what is left of `inp` after a non-empty prefix was consumed. -/
+def Consumed (inp r : List Char) : Prop := r <:+ inp ∧ r.length < inp.length
+
+theorem suf_cons {r l : List Char} (a : Char) (h : r <:+ l) : r <:+ a :: l :=
+  h.trans (List.suffix_cons a l)
+
+theorem skipWs_suffix (l : List Char) : skipWs l <:+ l := by
+  induction l with
+  | nil => simp [skipWs]
+  | cons c cs ih =>
+    simp only [skipWs]
+    split
+    · exact suf_cons c ih
+    · exact List.suffix_refl _
+
+theorem skipWs_nil (l : List Char) (h : skipWs l = []) : ∀ c ∈ l, isWs c = true := by
+  induction l with
+  | nil => simp
+  | cons c cs ih =>
+    simp only [skipWs] at h
+    split at h
+    · intro x hx
+      rcases List.mem_cons.1 hx with rfl | hx
+      · assumption
+      · exact ih h x hx
+    · cases h
+
+theorem takeDigits_suffix (l : List Char) : (takeDigits l).2 <:+ l := by
+  induction l with
+  | nil => simp [takeDigits]
+  | cons c cs ih =>
+    simp only [takeDigits]
+    split
+    · exact suf_cons c ih
+    · exact List.suffix_refl _
+
+theorem takeDigits_suffix_of_eq {l d r : List Char} (h : takeDigits l = (d, r)) : r <:+ l := by
+  have hs := takeDigits_suffix l
+  rw [h] at hs
+  exact hs
+
+theorem takeDigits_len (l : List Char) : (takeDigits l).1.length + (takeDigits l).2.length = l.length := by
+  induction l with
+  | nil => simp [takeDigits]
+  | cons c cs ih =>
+    simp only [takeDigits]
+    split
+    · simp; omega
+    · simp
+
+theorem consumed_cons (a : Char) (r : List Char) : Consumed (a :: r) r :=
+  ⟨List.suffix_cons a r, by simp⟩
+
+theorem consumed_weaken {l r : List Char} (a : Char) (h : Consumed l r) : Consumed (a :: l) r :=
+  ⟨suf_cons a h.1, by have := h.2; simp; omega⟩
+
+theorem consumed_of_suffix {l l' r : List Char} (h : Consumed l r) (hs : l <:+ l') : Consumed l' r :=
+  ⟨h.1.trans hs, Nat.lt_of_lt_of_le h.2 hs.length_le⟩
+
+theorem consumed_trans {l m r : List Char} (h1 : Consumed l m) (h2 : Consumed m r) : Consumed l r :=
+  ⟨h2.1.trans h1.1, Nat.lt_trans h2.2 h1.2⟩
+
+theorem consumed_suffix {l m r : List Char} (h1 : Consumed l m) (h2 : r <:+ m) : Consumed l r :=
+  ⟨h2.trans h1.1, Nat.lt_of_le_of_lt h2.length_le h1.2⟩
+
+theorem parseStrBody_consumed (fuel : Nat) : ∀ (inp acc s r : List Char),
+    parseStrBody fuel inp acc = some (s, r) → Consumed inp r := by
+  induction fuel with
+  | zero => intro inp acc s r h; simp [parseStrBody] at h
+  | succ fuel ih =>
+    intro inp acc s r h
+    unfold parseStrBody at h
+    repeat' (first | (cases h; done) | split at h)
+    all_goals
+      first
+      | (cases h; exact consumed_cons _ _)
+      | (have hc := ih _ _ _ _ h
+         repeat (first | exact hc | apply consumed_weaken))
+
+theorem parseNumber_consumed (inp : List Char) (j : Json) (r : List Char)
+    (h : parseNumber inp = some (j, r)) : Consumed inp r := by
+  unfold parseNumber at h
+  repeat' (first | (cases h; done) | split at h)
+  all_goals
+    rename_i x3 neg r0 h3 x2 d2 r2 h2 hne hz x1 d1 r1 h1 hf x0 d rr h0 he hfe hneg
+    have hA : r0 <:+ inp := by
+      split at h3 <;> cases h3
+      · exact List.suffix_cons _ _
+      · exact List.suffix_refl _
+    have hB : Consumed r0 r2 := by
+      have hs := takeDigits_suffix r0
+      have hl := takeDigits_len r0
+      rw [h2] at hs hl
+      simp only at hs hl
+      refine ⟨hs, ?_⟩
+      have : d2.length ≠ 0 := by
+        intro hd; apply hne; simp [List.length_eq_zero_iff.1 hd]
+      omega
+    have hC : r1 <:+ r2 := by
+      split at h1
+      · split at h1
+        next heq =>
+          cases h1
+          exact suf_cons _ (takeDigits_suffix_of_eq heq)
+      · cases h1; exact List.suffix_refl _
+    have hD : rr <:+ r1 := by
+      repeat' (first | (cases h0; done) | split at h0)
+      all_goals
+        first
+        | (cases h0; exact List.suffix_refl _)
+        | (rename_i _ _ _ hsgn _ _ _ hd _
+           cases h0
+           refine suf_cons _ ((takeDigits_suffix_of_eq hd).trans ?_)
+           split at hsgn <;> cases hsgn <;> first | exact List.suffix_cons _ _ | exact List.suffix_refl _)
+    have hr : rr = r := by
+      simp at h; exact h.2
+    subst hr
+    exact consumed_suffix (consumed_of_suffix hB hA) (hD.trans hC)
+
+theorem skipWs_cons_consumed {l r : List Char} {a : Char} (h : skipWs l = a :: r) : Consumed l r :=
+  consumed_of_suffix (h ▸ consumed_cons a r : Consumed (skipWs l) r) (skipWs_suffix l)
+
+theorem parseValue_succ_consumed (fuel : Nat)
+    (hE : ∀ inp acc j r, parseElems fuel inp acc = some (j, r) → Consumed inp r)
+    (hM : ∀ inp acc j r, parseMembers fuel inp acc = some (j, r) → Consumed inp r)
+    (inp : List Char) (j : Json) (r : List Char)
+    (h : parseValue (fuel + 1) inp = some (j, r)) : Consumed inp r := by
+  unfold parseValue at h
+  refine consumed_of_suffix ?_ (skipWs_suffix inp)
+  generalize skipWs inp = w at h
+  repeat' (first | (cases h; done) | split at h)
+  all_goals
+    first
+    | exact parseNumber_consumed _ _ _ h
+    | exact consumed_weaken _ (hE _ _ _ _ h)
+    | exact consumed_weaken _ (hM _ _ _ _ h)
+    | (next heq => cases h; exact consumed_weaken _ (parseStrBody_consumed _ _ _ _ _ heq))
+    | (next heq => cases h; exact consumed_weaken _ (skipWs_cons_consumed heq))
+    | (cases h; repeat (first | exact consumed_cons _ _ | apply consumed_weaken))
+
+theorem parse_mutual_consumed (fuel : Nat) :
+    (∀ inp j r, parseValue fuel inp = some (j, r) → Consumed inp r)
+    ∧ (∀ inp acc j r, parseElems fuel inp acc = some (j, r) → Consumed inp r)
+    ∧ (∀ inp acc j r, parseMembers fuel inp acc = some (j, r) → Consumed inp r) := by
+  induction fuel with
+  | zero =>
+    refine ⟨?_, ?_, ?_⟩
+    · intro inp j r h; unfold parseValue at h; cases h
+    · intro inp acc j r h; unfold parseElems at h; cases h
+    · intro inp acc j r h; unfold parseMembers at h; cases h
+  | succ fuel ih =>
+    obtain ⟨hV, hE, hM⟩ := ih
+    refine ⟨parseValue_succ_consumed fuel hE hM, ?_, ?_⟩
+    · intro inp acc j r h
+      unfold parseElems at h
+      repeat' (first | (cases h; done) | split at h)
+      · next hv _ _ hw =>
+          exact consumed_trans (consumed_trans (hV _ _ _ hv) (skipWs_cons_consumed hw)) (hE _ _ _ _ h)
+      · next hv _ _ hw =>
+          cases h
+          exact consumed_trans (hV _ _ _ hv) (skipWs_cons_consumed hw)
+    · intro inp acc j r h
+      unfold parseMembers at h
+      repeat' (first | (cases h; done) | split at h)
+      · next hq _ _ _ hs _ _ hc _ _ _ hv _ _ hw =>
+          exact consumed_trans (consumed_trans (consumed_trans (consumed_trans (consumed_trans
+            (skipWs_cons_consumed hq) (parseStrBody_consumed _ _ _ _ _ hs)) (skipWs_cons_consumed hc))
+            (hV _ _ _ hv)) (skipWs_cons_consumed hw)) (hM _ _ _ _ h)
+      · next hq _ _ _ hs _ _ hc _ _ _ hv _ _ hw =>
+          cases h
+          exact consumed_trans (consumed_trans (consumed_trans (consumed_trans
+            (skipWs_cons_consumed hq) (parseStrBody_consumed _ _ _ _ _ hs)) (skipWs_cons_consumed hc))
+            (hV _ _ _ hv)) (skipWs_cons_consumed hw)
+
+/-- **parse_total** (robustness of the JSON parser).  `Json.parse` is total by
+    construction (explicit fuel); what it accepts is a document that was read
+    completely: a non-empty prefix of the input is one JSON value, and what
+    follows it is white space only.  In particular no input with trailing
+    garbage and no empty / blank input is accepted. -/
+theorem parse_total (inp : List Char) :
+    Json.parse inp = none ∨
+    ∃ j pre rest, Json.parse inp = some j ∧ inp = pre ++ rest ∧ pre ≠ []
+      ∧ (∀ c ∈ rest, isWs c = true)
+      ∧ parseValue (2 * inp.length + 2) inp = some (j, rest) := by
+  unfold Json.parse
+  split
+  · next v r hv =>
+      split
+      · next hws =>
+          right
+          obtain ⟨⟨pre, hpre⟩, hlen⟩ := (parse_mutual_consumed _).1 _ _ _ hv
+          refine ⟨v, pre, r, rfl, hpre.symm, ?_, skipWs_nil r (by simpa using hws), hv⟩
+          intro hp; subst hp; simp at hpre; subst hpre; omega
+      · left; rfl
+  · left; rfl
+
+theorem skipWs_all (l : List Char) (h : ∀ c ∈ l, isWs c = true) : skipWs l = [] := by
+  induction l with
+  | nil => rfl
+  | cons c cs ih =>
+    simp only [skipWs, h c (List.mem_cons_self), if_true]
+    exact ih (fun x hx => h x (List.mem_cons_of_mem _ hx))
+
+/-- Empty and blank inputs are rejected. -/
+theorem parse_blank (inp : List Char) (h : ∀ c ∈ inp, isWs c = true) : Json.parse inp = none := by
+  unfold Json.parse
+  rw [show 2 * inp.length + 2 = (2 * inp.length + 1) + 1 from rfl]
+  unfold parseValue
+  rw [skipWs_all inp h]
+
+/-- Trailing garbage is rejected: when the value read from the front of the
+    input is followed by anything that is not white space, the document is
+    rejected (contrapositive reading of `parse_total`). -/
+theorem parse_trailing (inp : List Char) (j : Json) (rest : List Char)
+    (hv : parseValue (2 * inp.length + 2) inp = some (j, rest)) (c : Char) (hc : c ∈ rest)
+    (hnw : isWs c = false) : Json.parse inp = none := by
+  rcases parse_total inp with h0 | ⟨j', pre, rest', _, _, _, hws, hv'⟩
+  · exact h0
+  · rw [hv] at hv'
+    cases hv'
+    have := hws c hc
+    rw [hnw] at this
+    cases this
+
+end Parser
+
+/-! ### 5. Non-vacuity -/
+
+example : Load.loadStory 100 none = .err "BadJson" "Story not in JSON format." := rfl
+
+example : Load.loadStory 100 (some (.obj []))
+    = .err "BadJson" "ink version number not found. Are you sure it's a valid .ink.json file?" := rfl
+
+/-- A concrete (empty) story. -/
+def demoStory : Story :=
+  { root := .container none 0 [] [], defs := [], state := StoryState.fresh 0, snapshot := none,
+    recCount := 0, asyncActive := false, sawUnsafe := false, validated := false,
+    allowFallbacks := false, handler := false, observers := [], externals := [], events := [],
+    lines := 0, fuel := none, stepClock := false }
+
+example : (loadState demoStory (some (.obj []))).1
+    = .err "BadJson" "ink save format incorrect, can't load." := rfl
+
+example : (loadState demoStory none).1 = .err "BadJson" "State not in JSON format." := rfl
+
+/-- … and for every story that is not in the middle of an asynchronous continue. -/
+example (st : Story) (h : st.asyncActive = false) :
+    (loadState st (some (.obj []))).1 = .err "BadJson" "ink save format incorrect, can't load." := by
+  simp [loadState, Story.ifAsyncWeCant, h, loadStateObj, Json.get?, bad, Out.badJson]
+
+/-- A save with a wrong-typed field deep inside is rejected with an error too. -/
+example : (loadState demoStory (some (.obj [("inkSaveVersion", .num 10),
+      ("flows", .obj [("DEFAULT_FLOW", .obj [("outputStream", .arr [.null])])])]))).1
+    = .err "BadJson" "Failed to convert token to runtime RTObject: null" := rfl
+
+example : C17.Quiescent demoStory := ⟨rfl, rfl, rfl, rfl⟩
+
+example : Json.parse "".toList = none := parse_blank _ (by simp)
+example : Json.parse ['[', '1', ']', ' ', 'x'] = none := by rfl
+example : Json.parse ['[', '1', ',', ' ', 'n', 'u', 'l', 'l', ']', ' '] = some (.arr [.num 1, .null]) := by rfl
+
 end C15
 end Ink
+
+#print axioms Ink.C15.loadStory_no_panic
+#print axioms Ink.C15.loadStory_err_kind
+#print axioms Ink.C15.loadState_no_panic
+#print axioms Ink.C15.save_helpers_no_panic
+#print axioms Ink.C15.loadState_touches_only_state
+#print axioms Ink.C15.failed_load_then_reset_is_fresh
+#print axioms Ink.C15.failed_load_then_reset_eq_blank
+#print axioms Ink.C15.parse_total
